@@ -54,6 +54,16 @@ ShrtOK(r) ==
          \* removing scaling leaves shear * rotation * translation
          /\ NearRows(c.sans, c.HRT, c.tolHRT) /\ r.removed = r.sans
 
+\* extractSHRT with an explicit rotation order (angles in x, y, z slots of that order), and with an Euler object of that order
+ShrtoOK(r) == \E c \in {[A |-> Sq(r.t, r.m, 4), S |-> Sq(r.t, r.S, 4), H |-> Sq(r.t, r.H, 4), R |-> Sq(r.t, r.R, 4), T |-> Sq(r.t, r.T, 4), Re |-> Sq(r.t, r.Re, 4)]} :
+    LET t == r.t
+        P1 == MV(c.S, MV(c.H, MV(c.R, c.T)))
+        P2 == MV(c.S, MV(c.H, MV(c.Re, c.T)))
+        tl == RowTol(t, c.A)
+    IN  /\ r.ok = 1 /\ r.oke = 1 /\ r.s5 = r.s /\ r.h5 = r.h
+        /\ NearRows(P1, c.A, tl) /\ IsRotation(Lin(c.R, 3), KE(t))
+        /\ NearRows(P2, c.A, tl) /\ IsRotation(Lin(c.Re, 3), KE(t))
+
 RsOK(r) ==
     LET t == r.t
         P == MV(Sq(t, r.S, 4), MV(Sq(t, r.R, 4), Sq(t, r.T, 4)))
@@ -146,9 +156,9 @@ ProcOK(r) ==
     /\ ProcOne(r, r.p1, [i \in 1..np |-> D!DOne])
     /\ ProcOne(r, r.p2, Nums(t, r.w))
 
-Judge(r) == CASE r.e = "shrt" -> ShrtOK(r) [] r.e = "rs" -> RsOK(r) [] r.e = "svd" -> SvdOK(r)
+Judge(r) == CASE r.e = "shrt" -> ShrtOK(r) [] r.e = "shrto" -> ShrtoOK(r) [] r.e = "rs" -> RsOK(r) [] r.e = "svd" -> SvdOK(r)
               [] r.e = "eig" -> EigOK(r) [] r.e = "proc" -> ProcOK(r) [] r.e = "rsdeg" -> r.thrown = 2 [] OTHER -> FALSE
-What(r) == CASE r.e = "shrt" -> <<r.e, r.t, r.n, r.mode>> [] r.e = "svd" -> <<r.e, r.t, r.n, r.fp>>
+What(r) == CASE r.e = "shrt" -> <<r.e, r.t, r.n, r.mode>> [] r.e = "shrto" -> <<r.e, r.t, r.order>> [] r.e = "svd" -> <<r.e, r.t, r.n, r.fp>>
              [] r.e = "eig" -> <<r.e, r.t, r.n>> [] r.e = "proc" -> <<r.e, r.t, r.npts, r.shape, r.scaling, r.noisy>> [] OTHER -> <<r.e, r.t>>
 Init == l = 1
 Next == \/ /\ l <= TraceLen
